@@ -24,7 +24,7 @@ RULE = ('Hypothesis-generated histories of schedule(delta, action kind) / schedu
 ASSUMPTIONS = [
     'gevent event loop replaced by the virtual-time loop (FIFO callbacks, timers by due time then registration order)',
     'clock exact (cpu cost 0) in this harness; 0.01 s resolution checked with 1 ms tolerance',
-    'order is only demanded between actions that were both pending before either became due',
+    'order is demanded between two actions whenever both were on the heap together: the one due first was scheduled first, or the other was not yet due, or no yield separated the two Schedule calls',
 ]
 BUDGET = {
     'quick': {'examples': 3000},
@@ -52,6 +52,7 @@ def strategy(tier):
   op = st.one_of(
       st.tuples(st.just('schedule'), st.integers(-8, 80), action).map(list),
       st.tuples(st.just('schedule'), st.integers(-8, 80), st.just(['plain'])).map(list),
+      st.tuples(st.just('schedule'), st.integers(-20, 0), st.just(['plain'])).map(list),
       st.tuples(st.just('schedule_same'), st.integers(0, 30)).map(list),
       st.tuples(st.just('cancel'), st.integers(0, 30)).map(list),
       st.tuples(st.just('advance'), st.integers(0, 40)).map(list),
@@ -63,7 +64,7 @@ def strategy(tier):
 
 
 class _Entry(object):
-  __slots__ = ('id', 'T', 'R_lo', 'R_hi', 's', 'cancelled_at', 'runs', 'cancel', 'kind')
+  __slots__ = ('id', 'T', 'R_lo', 'R_hi', 's', 'cancelled_at', 'runs', 'cancel', 'kind', 'epoch')
 
 
 def execute(plan):
@@ -74,6 +75,7 @@ def execute(plan):
     settle()
     entries = []
     runlog = []
+    epoch = [0]        # bumped wherever the scheduling greenlet can have yielded to the worker
 
     def now_u():
       return int(round((loop.now() - EPOCH) / unit))
@@ -97,6 +99,7 @@ def execute(plan):
       e.id = len(entries)
       e.T = T_u
       e.s = now_u()
+      e.epoch = epoch[0]
       e.kind = kind
       e.cancelled_at = None
       e.runs = []
@@ -117,6 +120,7 @@ def execute(plan):
       entries.append(e)
 
       def action():
+        epoch[0] += 1
         e.runs.append(loop.now())
         runlog.append(e.id)
         if kind[0] == 'child':
@@ -160,9 +164,6 @@ def execute(plan):
         for b in ran:
           if a.id >= b.id:
             continue
-          both_before = max(a.s, b.s) < min(a.R_lo, b.R_lo)
-          if not both_before:
-            continue
           if a.R_hi < b.R_lo:
             first, second = a, b
           elif b.R_hi < a.R_lo:
@@ -171,6 +172,13 @@ def execute(plan):
             first, second = a, b   # tie: scheduling order (a.id < b.id)
           else:
             continue
+          # the heap decides whenever both were in it together: always when the one that must run first was
+          # scheduled first; otherwise only if the other one cannot have been taken off the heap yet - it was
+          # not due, or no yield happened between the two Schedule calls
+          if first.id > second.id and not (second.R_lo > first.s or first.epoch == second.epoch):
+            continue
+          if first.epoch == second.epoch and first.id > second.id and second.R_lo <= first.s:
+            flags.add('overdue_pair_scheduled_without_yield')
           if pos[first.id] > pos[second.id]:
             raise Violation(ID, 'order', 'action %d (rounded %r, seq %d) ran after action %d (rounded %r, seq %d)' % (
                 first.id, first.R_lo, first.id, second.id, second.R_lo, second.id))
@@ -187,14 +195,18 @@ def execute(plan):
       elif op[0] == 'advance':
         target = EPOCH + (now_u() + op[1]) * unit
         d = target - loop.now()
+        epoch[0] += 1
         advance(d if d > 0 else 0)
+        epoch[0] += 1
         check()
     # teardown: past every deadline, no further scheduling activity by the harness
     for _ in range(4):
       last = max([e.R_hi for e in entries] + [now_u()])
       target = EPOCH + (last + 2 * max(res_u, 1)) * unit
       d = target - loop.now()
+      epoch[0] += 1
       advance(d if d > 0 else 0)
+      epoch[0] += 1
       check(final=True)
       if all(e.R_hi < now_u() for e in entries):
         break
